@@ -92,3 +92,10 @@ Lemma refuted_ucn : lex_one_ok (s "CHAR_CONST") (qt ++ bsl ++ s "u1234" ++ qt) (
 Proof. vm_compute. repeat split. Qed.
 Lemma refuted_long_hex_char : lex_one_ok (s "CHAR_CONST") (s "L" ++ qt ++ bsl ++ s "x1234" ++ qt) (s ";") = false.
 Proof. vm_compute. repeat split. Qed.
+
+(* the tool's suffix tables against the independent suffix grammar: same integer suffix set, float suffixes included *)
+Lemma integer_suffix_table_is_the_grammar :
+  forallb (fun x => str_in x integer_suffixes) spec_int_suffixes = true /\
+  forallb (fun x => str_in x spec_int_suffixes) integer_suffixes = true /\
+  forallb (fun x => str_in x float_suffixes) spec_float_suffixes = true.
+Proof. vm_compute. repeat split. Qed.
